@@ -84,10 +84,10 @@ def filter_case(cfg, events, descr=None):
 
 
 ADVERSARIAL = [
-    # (both centre offsets carry a value: for an omitted I/J Python computes with the int 0, whose
-    # negation is not a negative zero — a float artefact the model's Float instance does not mirror,
-    # see DESIGN 0.3 "boundary observations")
-    "G2 F X20 Y10 I5 J0", "g3 e x20 y10 i5 j0", "G2 X Y20 I0 J5", "G3 Z X12 Y3 J-4 I I2", "G2 X20 Y10 I5 J0 F",
+    # (omitted centre offsets too: Python computes with the int 0 there, whose negation is no negative
+    # zero — the model's handler carries the negations separately, see DESIGN 0.5)
+    "G2 F X20 Y10 I5 J0", "g3 e x20 y10 i5 j0", "G2 X Y20 J5", "G3 Z X12 Y3 J-4 I", "G2 X20 Y10 I5 J0 F",
+    "G2 Y20 J5", "G3 X10 I5", "G2 X15 Y15 I10", "G3 Y10 J-5", "G2 I5", "G3 J2.5", "G2 X5 Y20 J5", "G3 X25 Y15 I-10 J",
     "G1 F0", "G1 F0 E-2", "G0 X15 Y15 E-1 F0", "G1 E-2", "G1 X0", "G1 X0 Y0", "G0 Y0.0",
     "M206 X2 Y Z0.25", "M206 X-2.5 Y=3", "M206", "M206 Z", "G92 X Y1", "G92 E", "G92 E1 X", "G28 X0 Y", "G10 P", "G11 (x)",
     "G1 X30 Y40 Z2 E5 F1500 X35", "G1 F1200 E2 Z1 Y12 X12 Y31 E3", "G0 X1 Y1 Z1 E1 F100 Z0.5 F200",
